@@ -11,6 +11,10 @@ if "--round2" in args:
     args.remove("--round2")
     root = "/tmp/seed2"
     rename = {"A": "C", "B": "D"}
+if "--round6" in args:
+    args.remove("--round6")
+    root = "/tmp/seed6"
+    rename = {"A": "K", "B": "L"}
 if "--round5" in args:
     args.remove("--round5")
     root = "/tmp/seed5"
